@@ -47,23 +47,28 @@ func loopCounter(header *ssa.BasicBlock) (*ssa.Phi, int64, bool) {
 		if !ok {
 			break
 		}
-		if !isIntType(phi.Type()) || len(phi.Edges) != 2 {
+		if !isIntType(phi.Type()) || len(phi.Edges) < 2 {
 			continue
 		}
 		var init int64
-		okInit, okStep := false, false
+		nInit, nStep, bad := 0, 0, false
 		for i, e := range phi.Edges {
 			if header.Dominates(header.Preds[i]) {
 				if bo, ok := e.(*ssa.BinOp); ok && bo.Op == token.ADD && bo.X == phi {
 					if k, ok := constInt(bo.Y); ok && k == 1 {
-						okStep = true
+						nStep++
+						continue
 					}
 				}
+				bad = true
 			} else if k, ok := constInt(e); ok {
-				init, okInit = int64(k), true
+				init = int64(k)
+				nInit++
+			} else {
+				bad = true
 			}
 		}
-		if okInit && okStep {
+		if !bad && nInit == 1 && nStep >= 1 {
 			return phi, init, true
 		}
 	}
